@@ -52,6 +52,8 @@ Rewrite rules (each application is counted per function and reported in the evid
       parameter by a seam object of the unit (e.g. `bytes.iter().cloned()` -> `&mut ByteSrc::cloned(bytes)`, whose assumed
       contract says which items the adapter chain yields). FROM must occur exactly once in header + body, else the function
       is stubbed (undecided); every pair is listed in the evidence. Nothing but the item source changes
+  `//@fieldorder file | Struct | f1, f2 | derive A, B` emits `proof fn derive_shape_Struct() ensures true|false`: the truth value of "the
+      struct declares exactly these fields in this order and derives these traits" as read from the source on this run
   R18 `| where K: Ord`: a supertrait bound of the real trait (`Kmer: ... + Ord`) that the Verus-side seam trait does not carry
       is restated on the extracted function as a where clause (no executable effect)
   R15 `//@stmts file | container | fn | from "a" | to "b"`: a contiguous statement range of a function body
@@ -944,6 +946,39 @@ def process(template_path, repo, meta, twin=None, stub=()):
                 meta["items"].append({"kind": "fn", "file": rel, "container": container, "name": name, "emitted_as": wname,
                                       "stubbed": "extraction: %s" % e, "rewrites": {"R15": 1}, "sha256": "", "span": [0, 0],
                                       "body_lines": 0})
+            continue
+        mfo = re.match(r"^\s*//@fieldorder\s+(.*)$", ln)
+        if mfo:
+            # //@fieldorder file | Struct | f1, f2 [| derive A, B]: a proof fn whose postcondition is the literal truth value of
+            # "the struct declares exactly these named fields in this order (and derives these traits)". Lemmas about derived
+            # impls (field-by-field comparison in declaration order) are stated over that order; if the source disagrees the
+            # obligation `derive_shape_<Struct>` FAILS (a violation of the lemma's premise), it is not silently re-interpreted.
+            fo = [f.strip() for f in mfo.group(1).split("|")]
+            rel = fo[0]
+            path = os.path.join(repo, rel)
+            if path not in sources:
+                if not os.path.exists(path):
+                    raise ExtractError("source file missing: " + rel)
+                sources[path] = Source(path)
+            S = sources[path]
+            hs, o, c = S.find_struct(fo[1])
+            body = S.src[o:c + 1]
+            bm = code_mask(body)
+            body2 = strip_attrs("".join(body[k] if bm[k] else " " for k in range(len(body))))
+            found = re.findall(r"(?:pub(?:\([^)]*\))?\s+)?(\w+)\s*:", body2)
+            want = [x.strip() for x in fo[2].split(",") if x.strip()]
+            raw = strip_noncode(S.src, S.mask, hs, o)
+            okd = True
+            if len(fo) > 3 and fo[3].startswith("derive"):
+                for d in [x.strip() for x in fo[3][len("derive"):].split(",") if x.strip()]:
+                    if not re.search(r"#\[derive\([^\]]*\b%s\b" % re.escape(d), raw):
+                        okd = False
+            verdict = "true" if (found == want and okd) else "false"
+            out.append("/// generated by //@fieldorder: fields found in %s: %s (expected %s)%s" % (rel, ", ".join(found), ", ".join(want), "" if okd else "; a listed derive is missing"))
+            out.append("proof fn derive_shape_%s() ensures %s, {}" % (fo[1], verdict))
+            meta["items"].append({"kind": "fieldorder", "file": rel, "name": fo[1], "found": found, "expected": want, "span": [hs, c + 1],
+                                  "sha256": hashlib.sha256(S.src[hs:c + 1].encode()).hexdigest()})
+            i += 1
             continue
         m = re.match(r"^\s*//@(fn|struct)\s+(.*)$", ln)
         if not m:
